@@ -533,7 +533,7 @@ def render(doc, form):
 
 # ==================================================================== helpers
 
-def _slug(msg, n=6):
+def _slug(msg, n=8):
     words = []
     for w in str(msg).replace("'", ' ').replace('"', ' ').split():
         w = ''.join(ch for ch in w if ch.isalpha() or ch in '_-')
@@ -569,7 +569,8 @@ def value_class(v):
             else 'float'
     elif isinstance(value, str):
         p = spec.parse_instant(value)
-        c = 'datestr' if isinstance(p, datetime.datetime) else 'str'
+        c = 'str' if not isinstance(p, datetime.datetime) else \
+            ('dateonly' if len(value) == 10 else 'datetime')
     elif isinstance(value, list):
         c = 'list'
     else:
@@ -969,7 +970,8 @@ class C09(Check):
                 # -- fixpoint on tdda-written texts
                 if written and Tsec is not None:
                     if s2 != Tsec:
-                        R.viol('fixpoint:%s' % self.diff_class(Tsec, s2),
+                        R.viol('fixpoint:%s:%s' % (self.diff_class(Tsec, s2),
+                                                   ctx.get('tag', '-')),
                                'reload-rewrites-identical-fields-text',
                                {'op': op, 'depth': depth, 'before': Tsec[:500],
                                 'after': s2[:500]}, {'op': op, 'depth': depth})
@@ -1058,7 +1060,13 @@ class C09(Check):
         fields = doc.get('fields') if isinstance(doc, dict) else None
         names = [n for n in fields] if isinstance(fields, dict) else []
         R.key = 'hand:' + form + ':' + case['doc']
-        info = self.explore(R, T0, True, doc, cls, {'values': doc})
+        tag = 'hand'
+        if isinstance(fields, dict) and any(
+                isinstance(fc, dict) and isinstance(fc.get('type'), dict)
+                for fc in fields.values()):
+            tag = 'hand-type-in-dict-form'
+        info = self.explore(R, T0, True, doc, cls, {'values': doc,
+                                                    'tag': tag})
         if cls != 'doc':
             R.unspec += 1
             R.out('gray:%s:%s' % (reason, 'rejected' if info['rejected']
@@ -1098,13 +1106,13 @@ class C09(Check):
         n = len(A)
         R.ev(2 * n, checked=n)
         self.compare_routes(R, 'dict', A, 'path', B, doc, T0, T1)
-        if info['sections'] == 1 and info['valid']:
+        if info['sections'] == 1 and info['valid'] and not R.violations:
             C = self.verdicts('path', T1, names)
             R.ev(n)
             self.compare_routes(R, 'dict', A, 'reserialised', C, doc, T0, T1)
         else:
-            # the re-serialised text is already reported as unstable or
-            # invalid: its verdicts would only repeat that finding
+            # the re-serialised text is already reported as unstable,
+            # invalid or unloadable: its verdicts would only repeat that
             R.out('battery:reserialised-skipped')
         if spec.has_ignorable(doc):
             E = self.verdicts('dict', spec.strip_ignorable(doc), names)
@@ -1168,10 +1176,6 @@ class C09(Check):
                         (mb['passes'], mb['failures']):
                     diff = ('*', 'totals', [ma['passes'], ma['failures']],
                             [mb['passes'], mb['failures']])
-            if diff is None and drop_null_kinds and \
-                    ma['failures'] != mb['failures'] and \
-                    not cid == 'missing':
-                diff = ('*', 'failures', ma['failures'], mb['failures'])
             if diff:
                 best = (cid,) + diff
                 break
@@ -1240,7 +1244,10 @@ class C09(Check):
                        for k in fc.constraints))))
         if parsed is None:
             return
-        info = self.explore(R, T0, False, None, 'doc', {'values': vals})
+        fam = '+'.join(sorted(set('dttz' if f.startswith('dttz') else f
+                                  for (_, f, _) in case['cols'])))
+        info = self.explore(R, T0, False, None, 'doc',
+                            {'values': vals, 'tag': 'discovered-' + fam})
         if info['sections'] > 1 or s is None:
             pass
         # start text's own section must be the one re-written
